@@ -189,6 +189,9 @@ func runDeployment1(d *Deployment, rt routes, prefixes []string, c *vlib.Cases, 
 			cfg.Discovery.Static.Endpoints[i].ModelURL = "" // profile default discovery path
 		}
 		// the provider constraint must hold under every routing strategy an operator may configure
+		if os.Getenv("VERIF_C11_PLAIN") != "" || stack.VaryForJSON("c11.plain", d)%5 == 1 { // a tenth of the deployments without the unifier
+			cfg.ModelRegistry.EnableUnifier = false
+		}
 		// (fallback "all" means: every healthy endpoint THE ROUTE ALLOWS)
 		switch (len(d.EPs) + len(d.Shadowed) + len(d.EPs[0].Models)) % 6 {
 		case 1:
